@@ -10,12 +10,49 @@ import warnings
 VERIF = os.path.dirname(os.path.dirname(os.path.abspath(__file__)))
 
 
+_state = []
+_state_ids = set()
+_preloaded = [False]
+
+
+def _reset_module_state():
+    """module-level dict / list / set objects of the pmutt modules (memo tables, registries) are put back to their content at import,
+    so that one replay cannot see what an earlier replay in the same server process stored there"""
+    if not _preloaded[0]:
+        _preloaded[0] = True
+        try:
+            import pkgutil
+            import pmutt
+            for m in pkgutil.walk_packages(pmutt.__path__, 'pmutt.'):
+                if '.tests' in m.name or m.name.startswith('pmutt.examples'):
+                    continue
+                try:
+                    importlib.import_module(m.name)
+                except Exception:
+                    pass
+        except Exception:
+            pass
+    for name, mod in list(sys.modules.items()):
+        if (name == 'pmutt' or name.startswith('pmutt.')) and mod is not None:
+            for k, v in list(vars(mod).items()):
+                if type(v) in (dict, list, set) and not k.startswith('__') and id(v) not in _state_ids:
+                    _state_ids.add(id(v))
+                    _state.append((v, type(v)(v)))
+    for obj, snap in _state:
+        if type(obj) is list:
+            obj[:] = snap
+        else:
+            obj.clear()
+            obj.update(snap)
+
+
 def run(payload):
     if VERIF not in sys.path:
         sys.path.insert(0, VERIF)
     repo = os.environ.get('PMUTT_REPO', '/repo')
     if repo not in sys.path:
         sys.path.insert(0, repo)
+    _reset_module_state()
     from symx import sched
     pid = payload['property']
     mod = importlib.import_module('checks.%s' % pid.lower())
